@@ -135,7 +135,12 @@ def rand_value(rng, full_pipeline=False):
     if r < 0.25:
         return rng.choice(["left", "200px", "a b", "x", "50%", "tip", "a.png", "note warning", "A title"])
     al = [c for c in VAL_ALPHA if not (full_pipeline and c in "\x00\r")]
-    return "".join(rng.choice(al + ["x y", " #", "\\n", "\\u", "'q'", "c"]) for _ in range(rng.randint(0, 8)))
+    v = "".join(rng.choice(al + ["x y", " #", "\\n", "\\u", "'q'", "c"]) for _ in range(rng.randint(0, 8)))
+    if full_pipeline:
+        # the tag must stay one inline-HTML token of the Markdown document: a continuation line must not
+        # start a block (quote, list, heading ...), so every line break is followed by a letter
+        v = re.sub(r"\n(?![a-z])", "\nq", v)
+    return v
 
 
 def attr_html(k, v):
@@ -246,7 +251,7 @@ def corr(ctx):
     rng = ctx.rng
     # (a) GFM filter: model vs the real call (both extensions off, gfm_only on)
     texts = list(small_strings(GFM_SMALL, ctx.budget(5, 6, 6)))
-    texts += [gen_gfm_text(rng) for _ in range(ctx.budget(20000, 200000, 200000))]
+    texts += [gen_gfm_text(rng) for _ in range(ctx.budget(20000, 120000, 120000))]
     texts = list(dict.fromkeys(texts))
     outs = model_run_parallel(PID, ["gfm\t" + enc_str(t) for t in texts])
     for t, o in zip(texts, outs):
@@ -263,7 +268,7 @@ def corr(ctx):
     ctx.sample({"gfm_text": texts[len(texts) // 2]})
     # (b) option_line
     vals = [None] + list(small_strings(VAL_ALPHA, ctx.budget(2, 3, 3)))
-    vals += [rand_value(rng) for _ in range(ctx.budget(20000, 200000, 200000))]
+    vals += [rand_value(rng) for _ in range(ctx.budget(20000, 100000, 100000))]
     vals = list(dict.fromkeys(vals))
     outs = model_run_parallel(PID, ["optline\t%s\t%s" % (enc_str("alt"), enc_ostr(v)) for v in vals])
     for v, o in zip(vals, outs):
@@ -280,7 +285,7 @@ def corr(ctx):
     # (b') the option reader (sub-language model of options_to_items) vs the real tokenizer
     from myst_parser.parsers.options import TokenizeError, options_to_items
     blocks = []
-    for _ in range(ctx.budget(6000, 60000, 60000)):
+    for _ in range(ctx.budget(6000, 40000, 40000)):
         extra = [(k, rand_value(rng) if rng.random() < 0.9 else None)
                  for k in rng.sample(["class", "name", "width", "height", "align"], rng.choice([0, 1, 2]))]
         content = impl_option_line(rand_value(rng) if rng.random() < 0.95 else None, extra)
@@ -315,7 +320,7 @@ def corr(ctx):
     ctx.oracle_tests["O_option_tokenizer"] = len(blocks)
     # (c) html_to_nodes decision logic
     cases, lines = [], []
-    for i in range(ctx.budget(6000, 60000, 60000)):
+    for i in range(ctx.budget(6000, 40000, 40000)):
         text, label = gen_block(rng)
         img, adm, gfm = rng.random() < 0.75, rng.random() < 0.75, rng.random() < 0.3
         if i % 11 == 0:
@@ -532,11 +537,18 @@ def check_img(ctx, case):
     """<img ...> document vs the {image} directive document: same image node attributes"""
     attrs = [tuple(a) for a in case["attrs"]]
     src = dict(attrs)["src"]
-    doc_a, _ = pipeline(img_html(attrs) + "\n", True, case.get("adm", False))
+    doc_a, ws_a = pipeline(img_html(attrs) + "\n", True, case.get("adm", False))
     keys = ["align", "alt", "class", "height", "name", "width"]
     opts = [(k, v) for k, v in sorted(dict(attrs).items()) if k in keys]
     text_b = "```{image} %s\n" % src + "".join(":%s: %s\n" % (k, yaml_dq(v or "")) for k, v in opts) + "```\n"
-    doc_b, _ = pipeline(text_b, True, False)
+    doc_b, ws_b = pipeline(text_b, True, False)
+    from lib.impl import parse_warnings
+    wa = sorted((w["tag"] or "", re.sub(r"\d+", "N", w["msg"])[:60]) for w in parse_warnings(ws_a))
+    wb = sorted((w["tag"] or "", re.sub(r"\d+", "N", w["msg"])[:60]) for w in parse_warnings(ws_b))
+    if wa != wb:
+        ctx.fail("img:warnings-differ-from-directive", case, "<img> and the equivalent {image} directive give different warnings",
+                 wb, wa)
+        return False
     a, b = image_attrs(doc_a), image_attrs(doc_b)
     if a != b or len(a) != 1:
         bad = [k for k, v in opts if dict(a[0] if a else []).get(k) != dict(b[0] if b else []).get(k)] if a and b else ["?"]
@@ -596,7 +608,11 @@ def check_raw(ctx, case):
     for img in (False, True):
         for adm in (False, True):
             doc, _ = pipeline(text, img, adm, gfm)
-            raws = [n.astext() for n in doc.findall(nodes.raw)]
+            # document order can differ from token order (a lone heading becomes the document title):
+            # compare as multisets, pairing by the text with every "&lt;" read as "<"
+            key = lambda x: x.replace("&lt;", "<")  # noqa: E731
+            raws = sorted((n.astext() for n in doc.findall(nodes.raw)), key=key)
+            toks = sorted(toks, key=key)
             if gfm:
                 for t, r in zip(toks, raws):
                     msg = spec_check_gfm(t, r)
@@ -664,30 +680,30 @@ def search(ctx):
             fails[0] += 1
         return fails[0] > 40
 
-    for t in small_strings(GFM_SMALL, ctx.budget(4, 5, 6)):
+    for t in small_strings(GFM_SMALL, ctx.budget(4, 5, 5)):
         if run({"kind": "gfm", "text": t}):
             return
-    for _ in range(ctx.budget(5000, 60000, 120000)):
+    for _ in range(ctx.budget(5000, 60000, 60000)):
         if run({"kind": "gfm", "text": gen_gfm_text(rng), "img": rng.random() < 0.3, "adm": rng.random() < 0.3}):
             return
     for v in [None] + list(small_strings(VAL_ALPHA, ctx.budget(2, 3, 3))):
         if run({"kind": "optline", "value": v}):
             return
-    for _ in range(ctx.budget(5000, 60000, 120000)):
+    for _ in range(ctx.budget(5000, 60000, 60000)):
         if run({"kind": "optline", "value": rand_value(rng)}):
             return
-    for _ in range(ctx.budget(3000, 30000, 60000)):
+    for _ in range(ctx.budget(3000, 30000, 30000)):
         text, _ = gen_block(rng)
         if run({"kind": "h2n", "text": text, "img": rng.random() < 0.7, "adm": rng.random() < 0.7, "gfm": rng.random() < 0.3}):
             return
     # full pipeline (docutils front end)
-    for i in range(ctx.budget(150, 1500, 3000)):
+    for i in range(ctx.budget(150, 1500, 1500)):
         attrs = [a for a in gen_img(rng, full_pipeline=True) if a[1] is not None or a[0] != "src"]
         if "src" not in dict(attrs):
             attrs.append(("src", "a.png"))
         if run({"kind": "img", "attrs": [list(a) for a in attrs], "adm": rng.random() < 0.5}):
             return
-    for i in range(ctx.budget(100, 1000, 2000)):
+    for i in range(ctx.budget(100, 1000, 1000)):
         case = {"kind": "adm", "title": rng.choice([None, "T", "A *title* here", "x `c`"]),
                 "cls": rng.choice(["admonition", "admonition tip", "admonition a-b"]),
                 "name": rng.choice([None, "n1", "a #b", "x: y", "'q'", "| p"]),
@@ -697,10 +713,10 @@ def search(ctx):
             case["tail"] = "only line"          # an admonition without body is an error on both sides
         if run(case):
             return
-    for i in range(ctx.budget(100, 800, 1600)):
+    for i in range(ctx.budget(100, 800, 800)):
         if run({"kind": "raw", "text": gen_plain_doc(rng), "gfm": i % 3 == 0}):
             return
-    for i in range(ctx.budget(150, 1500, 3000)):
+    for i in range(ctx.budget(150, 1500, 1500)):
         text = gen_block(rng)[0].replace("\x00", "").replace("\r", "")
         if run({"kind": "doc", "text": text + "\n", "gfm": i % 4 == 0}):
             return
